@@ -72,7 +72,18 @@ class Rewriter(ast.NodeTransformer):
     self.generic_visit(node)
     return node
 
+  VALUE_FUNCS = ('str', 'repr', 'hex', 'int', 'bool', 'ord', 'chr', 'min', 'max', 'sum')
+
+  def _as_value(self, n):
+    """a builtin passed around as a *function value* (default argument, key=..., map(f, ...)) must be the proxy-aware one"""
+    if isinstance(n, ast.Name) and isinstance(n.ctx, ast.Load) and n.id in self.VALUE_FUNCS and not self._shadowed(n.id):
+      return _sx(CALLS[n.id])
+    return n
+
   def _visit_fn(self, node):
+    a = node.args
+    a.defaults = [self._as_value(d) for d in a.defaults]
+    a.kw_defaults = [self._as_value(d) if d is not None else None for d in a.kw_defaults]
     self.shadow.append(_bound_names(node) & set(CALLS))
     self.generic_visit(node)
     self.shadow.pop()
@@ -156,6 +167,10 @@ class Rewriter(ast.NodeTransformer):
   def visit_Call(self, node):
     self.generic_visit(node)
     f = node.func
+    if isinstance(f, ast.Name) and f.id in ('map', 'filter') and node.args:
+      node.args[0] = self._as_value(node.args[0])
+    for kw in node.keywords:
+      if kw.arg in ('key', 'formatter', 'default'): kw.value = self._as_value(kw.value)
     if isinstance(f, ast.Name) and f.id in CALLS and not self._shadowed(f.id):
       if f.id == 'type' and (len(node.args) != 1 or node.keywords): return node
       node.func = _sx(CALLS[f.id])
@@ -211,6 +226,10 @@ class Rewriter(ast.NodeTransformer):
     t = node.type
     if t is None or (isinstance(t, ast.Name) and t.id == 'BaseException'):
       node.body.insert(0, ast.Expr(ast.Call(func=_sx('reraise_control'), args=[], keywords=[])))
+    else:
+      # soundness guard: a handler that swallows a TypeError/AttributeError caused by a proxy value reaching C-level code
+      # would silently change the path's behaviour; note it so that the path is reported as an engine error
+      node.body.insert(0, ast.Expr(ast.Call(func=_sx('note_exc'), args=[], keywords=[])))
     return node
 
 
